@@ -553,7 +553,7 @@ def fpROps (p : Nat) : ROps Nat := ⟨0, 1 % p, fun a b => (a + b) % p, fun a b 
 def fpOps (p : Nat) : EOps Nat where
   toROps := fpROps p
   normUnit a := if a % p == 0 then 1 % p else fpInv p (a % p)
-  inv a := if a % p == 0 then none else some (fpInv p (a % p))
+  inv a := if a % p == 0 then none else if a * fpInv p (a % p) % p == 1 then some (fpInv p (a % p)) else none
   isUnit a := !(a % p == 0)
   quo a b := (a * fpInv p (b % p)) % p
   rem _ _ := 0
